@@ -150,10 +150,11 @@ Fixpoint vt (fuel : nat) (jm : bool) (e : env) (t : ty) (v : value) {struct fuel
                 | Some (DType t') => vt f jm e t' v
                 | _ => None
                 end
-    | TOr a b => match vt f jm e a v with
-                 | Some true => Some true
-                 | Some false => vt f jm e b v
-                 | None => None
+    | TOr a b => match vt f jm e a v, vt f jm e b v with      (* symmetric: an undecided arm does not hide the other *)
+                 | Some true, _ => Some true
+                 | _, Some true => Some true
+                 | Some false, Some false => Some false
+                 | _, _ => None
                  end
     | TCtl c t' arg =>
       match vt f jm e t' v with
@@ -264,7 +265,7 @@ with valts (fuel : nat) (jm : bool) (e : env) (alts : list (list entry)) (ps : l
     | [] => Some false
     | es :: alts' =>
       match vcols f jm e es ps with
-      | None => None
+      | None => match valts f jm e alts' ps with Some true => Some true | _ => None end
       | Some cols => if decide_map es cols then Some true else valts f jm e alts' ps
       end
     end
